@@ -118,3 +118,10 @@ def canary_li():
     rd = sym_int("rd", 1, 31)
     st, regs0 = run_group(rd, c // 4096, c % 4096)
     check("naive_split_works", int(st.register_file.registers[rd]) == c)
+
+
+# C04 states the same of every expanding pseudo-instruction ("a group of base instructions that has the documented
+# effect"): the three split contracts are obligations of C04 as well
+unit("C04/pseudo-group/li-leaves-the-constant")(li_split)
+unit("C04/pseudo-group/la-and-load-by-name-form-the-variable-address")(la_split)
+unit("C04/pseudo-group/store-by-name-forms-the-variable-address")(store_split)
